@@ -374,6 +374,51 @@ def build_plan(case, planner_cls=None):
         shutil.rmtree(d, ignore_errors=True)
 
 
+def build_plans(cases, layout):
+    """several observations planned one after the other by ONE Planner / BatchPlanning instance (as in a simulation).
+    layout: 'same_dir' - wf_<i>.json side by side; 'subdirs' - <i>/workflow.json (same file name, different directories);
+    'shared' - observations with an identical graph share one file"""
+    import os
+    import shutil
+    import tempfile
+    import simpy
+    from topsim.core.buffer import Buffer
+    from topsim.core.cluster import Cluster
+    from topsim.core.instrument import Observation
+    from topsim.core.planner import Planner
+    from topsim.user.plan.batch_planning import BatchPlanning
+    from .clusterops import StubConfig
+    from .plans import batch_literal
+    from .scenario import workflow_json
+    d = tempfile.mkdtemp(prefix='vt14_')
+    try:
+        env = simpy.Environment(initial_time=cases[0]['clock'])
+        cluster = Cluster(env, StubConfig([(10, 5), (20, 5)]))
+        cfg = make_config('seconds', buffer={'hot': {'capacity': 1000, 'max_ingest_rate': 100},
+                                             'cold': {'capacity': 1000, 'max_data_rate': 10}})
+        planner = Planner(env, cluster, BatchPlanning(batch_literal()), None)
+        buffer = Buffer(env, cluster, planner, cfg)
+        plans, written = [], {}
+        for i, case in enumerate(cases):
+            key = json.dumps(case['wf'], sort_keys=True)
+            if layout == 'shared' and key in written:
+                p = written[key]
+            else:
+                if layout == 'subdirs':
+                    os.makedirs(os.path.join(d, str(i)))
+                    p = os.path.join(d, str(i), 'workflow.json')
+                else:
+                    p = os.path.join(d, f'wf_{i}.json')
+                with open(p, 'w') as f:
+                    json.dump(workflow_json(case['wf']), f)
+                written[key] = p
+            obs = Observation(case['name'], 0, case['duration'], 1, p, case['rate'])
+            plans.append(planner.run(obs, buffer, 3))
+        return plans
+    finally:
+        shutil.rmtree(d, ignore_errors=True)
+
+
 def check_plan(case, plan):
     out = []
     wf = case['wf']
@@ -442,7 +487,8 @@ class C14:
     technique = "property-based testing: generated DAG JSON, plan compared structurally with the graph (round trip)"
     rule = ("generated workflow DAG files (1-14 nodes, permuted / gapped labels, any density, isolated nodes, with and without "
             "task_data), observation names containing '_' and digits, clocks; the plan returned by Planner.run with the shipped "
-            "BatchPlanning is compared with the JSON graph; non-trivial = graph with >= 1 node of in-degree >= 2 and >= 1 node of "
+            "BatchPlanning is compared with the JSON graph; a third of the cases are histories of 2-4 observations planned by ONE planner "
+            "instance (workflow files side by side, in sub-directories under the same file name, or shared), each plan compared with its own graph; non-trivial = graph with >= 1 node of in-degree >= 2 and >= 1 node of "
             "out-degree >= 2; distinct = distinct canonical case JSON")
     level_text = ("exploration: bijection node<->task, unique ids carrying the observation name, compute/data demands, predecessor id "
                   "lists, per-edge volumes keyed by predecessor id, relabelled graph with exactly the mapped edges, topological task "
@@ -452,7 +498,15 @@ class C14:
     def body(self, case, state):
         state.evaluations += 1
         try:
-            plan = build_plan(case)
+            if case.get('more'):
+                # a history: further observations planned by the same planner instance; every plan must mirror ITS graph
+                seq = [case] + case['more']
+                plans = build_plans(seq, case.get('layout', 'same_dir'))
+                plan = plans[0]
+                state.count(f"history_layout={case.get('layout', 'same_dir')}")
+            else:
+                seq, plans = [case], None
+                plan = build_plan(case)
         except Exception as e:
             from .trace import harness_frame_innermost, repo_frame
             if harness_frame_innermost(e):
@@ -461,6 +515,15 @@ class C14:
             v['sig'] = v['part']
             return state.split_known([v])
         out = check_plan(case, plan)
+        if plans:
+            for i, (c, pl) in enumerate(zip(seq, plans)):
+                if i:
+                    for v in check_plan(c, pl):
+                        v['msg'] = f"observation #{i + 1} of a planner history ({case.get('layout')}): " + v['msg']
+                        out.append(v)
+            ids = [t.id for pl in plans for t in pl.tasks]
+            if len(ids) != len(set(ids)) and len({c['name'] for c in seq}) == len(seq):
+                out.append(O.V('C14', 'duplicate_ids', f"task ids not unique across the observations of one planner: {sorted(ids)[:8]}"))
         indeg, outdeg = {}, {}
         for u, v, _ in case['wf']['edges']:
             outdeg[u] = outdeg.get(u, 0) + 1
@@ -483,7 +546,20 @@ class C14:
 
     def run_shard(self, state, tier, seed, shard, nshards, cases=None):
         total = cases or self.cases[tier]
-        run_given(state, c14_cases(14 if tier == 'quick' else 20), self.body, max(1, total // nshards),
+        one = c14_cases(14 if tier == 'quick' else 20)
+
+        def hist(t):
+            first, more, layout = t
+            names = {first['name']}
+            keep = []
+            for m in more:                       # observation names are unique within a plan
+                if m['name'] not in names:
+                    names.add(m['name'])
+                    keep.append(m)
+            return dict(first, more=keep, layout=layout) if keep else first
+        histories = st.tuples(c14_cases(8), st.lists(c14_cases(8), min_size=1, max_size=3),
+                              st.sampled_from(['same_dir', 'subdirs', 'subdirs', 'shared'])).map(hist)
+        run_given(state, st.one_of(one, one, histories), self.body, max(1, total // nshards),
                   shard_seed(seed, self.prop, shard))
 
 
@@ -765,7 +841,7 @@ class C16:
     @staticmethod
     def sim_strategy():
         def mk(t):
-            sc, u, ks, order = t
+            sc, u, ks, order, lim = t
             sc = json.loads(json.dumps(sc))
             f, b = sc['machines'][0]['flops'], sc['machines'][0]['bw']
             sc['machines'] = [{'flops': f, 'bw': b} for _ in sc['machines']]          # homogeneous: runtime independent of placement
@@ -781,7 +857,9 @@ class C16:
                 for e in o['wf']['edges']:
                     e[2] = 0
             vols = sum(o['rate'] * o['duration'] for o in sc['obs'])
-            sc['hot'] = {'capacity': int(vols / 0.6) + 2, 'rate': max(o['rate'] for o in sc['obs'])}
+            # the hot tier's ingest-rate limit: exactly the fastest observation's rate (accepted), above it, or 1 / 0.5 below
+            # it (that observation's stream must be refused - with every unit alike)
+            sc['hot'] = {'capacity': int(vols / 0.6) + 2, 'rate': max(0.5, max(o['rate'] for o in sc['obs']) + lim)}
             sc['cold'] = {'capacity': max(o['rate'] * o['duration'] for o in sc['obs']), 'rate': 1}
             sc['mode'] = 'roomy'
             sc['delays'] = {}
@@ -790,7 +868,8 @@ class C16:
                          start_gaps=(0, 1, 2))
         # small custom factors keep the seconds-unit run short; the unit *spellings* are covered by the parse-level part
         return st.tuples(base, st.sampled_from([2, 3, 5, 7]), st.lists(st.integers(1, 3), min_size=1, max_size=6),
-                         st.sampled_from(['seq', 'built_first', 'built_first_rev'])).map(mk)
+                         st.sampled_from(['seq', 'built_first', 'built_first_rev']),
+                         st.sampled_from([0, 0, 0, 3, -1, -0.5])).map(mk)
 
     def sim_body(self, case, state):
         from .runner import run_pair
@@ -802,6 +881,18 @@ class C16:
         state.count(f"order={case.get('order', 'seq')}")
         out = []
         if a.status != 'completed' or b.status != 'completed':
+            # "rate-limit comparisons do not depend on the unit": refused with one unit <=> refused with the other
+            oa = (a.status, getattr(a, 'exc_sig', None))
+            ob = (b.status, getattr(b, 'exc_sig', None))
+            if oa != ob and 'budget' not in (a.status, b.status):
+                out.append(O.V('C16', 'outcome_depends_on_unit', f"unit 'seconds': {oa}, unit {u!r}: {ob} (hot limit {sc['hot']['rate']}/s, rates {[o['rate'] for o in sc['obs']]})"))
+                for v in out:
+                    v['sig'] = v['part']
+                return state.split_known(out)
+            if a.status == 'raised' and oa == ob:
+                state.count('sim_pairs_refused_alike')
+                state.nontrivial.add(case_hash(case))
+                return []
             state.aborted += 1
             return []
 
@@ -867,7 +958,9 @@ class TierObs:
 
 
 class TierModel:
-    """op histories on a real Buffer: ['store', size] ['h2c'] ['c2h'] ['step', k]"""
+    """op histories on a real Buffer: ['store', size] ['deposit', size] ['schedule'] ['finish'] ['h2c'] ['c2h'] ['step', k].
+    Several moves may be in flight at once (the second and later ones are only requested when the destination certainly has
+    room for everything in flight plus the newcomer, or certainly lacks room)."""
 
     def __init__(self, hot_cap, cold_cap, hot_rate, cold_rate):
         import simpy
@@ -880,9 +973,9 @@ class TierModel:
         self.rate = min(hot_rate, cold_rate)
         self.total = hot_cap + cold_cap        # hot free + cold free + data stored == constant
         self.data = 0
-        self.where = {}                        # obs name -> 'hot' | 'cold'
+        self.where = {}                        # obs name -> 'hot' | 'cold' | 'scheduled'
         self.objs = {}
-        self.move = None
+        self.moves = []                        # moves in flight (process still alive)
         self.k = 0
         self.classes = {}
         self.ops = []
@@ -899,54 +992,71 @@ class TierModel:
     def names(self, tier):
         return [o.name for o in tier.observations['stored']]
 
+    def state(self):
+        return (self.hot.current_capacity, self.cold.current_capacity, self.names(self.hot), self.names(self.cold),
+                getattr(self.hot.observations['transfer'], 'name', None), getattr(self.cold.observations['transfer'], 'name', None))
+
+    def in_flight(self):
+        return [mv for mv in self.moves if not mv['data_done']]
+
+    def describe(self):
+        return ", ".join(f"{mv['dir']} of {mv['name']} ({mv['left']}/{mv['size']} left)" for mv in self.moves) or "no move"
+
     def observe(self, out, op, advanced=False):
         h, c = self.hot.current_capacity, self.cold.current_capacity
         if h + c + self.data != self.total:
             out.append(O.V('C18', 'not_conserved', f"after {op}: hot free {h} + cold free {c} + stored data {self.data} != {self.total}"))
         if h < 0 or c < 0 or h > self.hot.total_capacity or c > self.cold.total_capacity:
             out.append(O.V('C18', 'free_out_of_range', f"after {op}: hot free {h}, cold free {c}"))
-        mv = self.move
-        if mv is not None:
-            dh, dc = h - self.last[0], c - self.last[1]
-            if mv['dir'] == 'h2c':
-                moved, other = dh, -dc
+        dh, dc = h - self.last[0], c - self.last[1]
+        due = [mv for mv in self.moves if mv['due'] and mv['left'] > 0]
+        exp = 0
+        for mv in due:
+            mv['want'] = min(self.rate, mv['left'])
+            exp += mv['want'] if mv['dir'] == 'h2c' else -mv['want']
+        if self.moves:
+            if dh != -dc:
+                out.append(O.V('C18', 'step_not_conserved', f"after {op}: {self.describe()}: hot free changed by {dh}, cold free by {dc}"))
+                self.dead = True
+            elif dh != exp:
+                if due and dh == 0 and advanced:
+                    out.append(O.V('C18', 'stalled', f"after {op}: {self.describe()} moved nothing"))
+                else:
+                    out.append(O.V('C18', 'wrong_rate', f"after {op}: {self.describe()}: hot free changed by {dh} in one step, expected {exp} "
+                                   f"(each move in flight transfers min(hot rate, cold rate, remaining) = min({self.rate}, left))"))
+                self.dead = True
             else:
-                moved, other = dc, -dh
-            if moved != other:
-                out.append(O.V('C18', 'step_not_conserved', f"after {op}: {mv['dir']} of {mv['name']}: source freed {moved}, destination took {other}"))
-            if moved:
-                want = min(self.rate, mv['left'])
-                mv['steps'] += 1
-                if moved != want:
-                    out.append(O.V('C18', 'wrong_rate', f"after {op}: {mv['dir']} of {mv['name']} moved {moved} in one step, expected min(hot rate, cold rate, remaining) = {want}"))
-                mv['left'] -= moved
-            elif mv['left'] > 0 and advanced:
-                out.append(O.V('C18', 'stalled', f"after {op}: {mv['dir']} of {mv['name']} moved nothing with {mv['left']} left"))
-            if mv['left'] <= 0 or not mv['proc'].is_alive:
-                if mv['left'] == 0 and not mv.get('data_done'):
-                    mv['data_done'] = True
-                    want_steps = math.ceil(mv['size'] / self.rate)
-                    if mv['steps'] != want_steps:
-                        out.append(O.V('C18', 'wrong_duration', f"{mv['dir']} of {mv['name']} ({mv['size']} units at rate {self.rate}) took {mv['steps']} transfer steps, expected {want_steps}"))
-                    dst, src = (self.cold, self.hot) if mv['dir'] == 'h2c' else (self.hot, self.cold)
-                    self.where[mv['name']] = 'cold' if mv['dir'] == 'h2c' else 'hot'
-                    if mv['name'] not in self.names(dst) or mv['name'] in self.names(src):
-                        out.append(O.V('C18', 'wrong_tier', f"after {mv['dir']} {mv['name']} is stored in hot {self.names(self.hot)} / cold {self.names(self.cold)}"))
-                    if self.hot.observations['transfer'] is not None or self.cold.observations['transfer'] is not None:
-                        out.append(O.V('C18', 'transfer_slot', f"transfer slots not cleared after the move: hot {self.hot.observations['transfer']} cold {self.cold.observations['transfer']}"))
-                if not mv['proc'].is_alive:
-                    if mv['left'] != 0:
-                        out.append(O.V('C18', 'ended_early', f"{mv['dir']} of {mv['name']} ended with {mv['left']} not transferred"))
-                    self.move = None
-                    self.count('move_completed')
+                for mv in due:
+                    mv['left'] -= mv['want']
+                    mv['steps'] += 1
+        for mv in self.moves:
+            mv['due'] = False
+        for mv in list(self.moves):
+            if mv['left'] == 0 and not mv['data_done'] and not self.dead:
+                mv['data_done'] = True
+                want_steps = math.ceil(mv['size'] / self.rate)
+                if mv['steps'] != want_steps:
+                    out.append(O.V('C18', 'wrong_duration', f"{mv['dir']} of {mv['name']} ({mv['size']} units at rate {self.rate}) took {mv['steps']} transfer steps, expected {want_steps}"))
+                dst, src = (self.cold, self.hot) if mv['dir'] == 'h2c' else (self.hot, self.cold)
+                self.where[mv['name']] = 'cold' if mv['dir'] == 'h2c' else 'hot'
+                if mv['name'] not in self.names(dst) or mv['name'] in self.names(src):
+                    out.append(O.V('C18', 'wrong_tier', f"after {mv['dir']} {mv['name']} is stored in hot {self.names(self.hot)} / cold {self.names(self.cold)}"))
+                if not self.in_flight() and (self.hot.observations['transfer'] is not None or self.cold.observations['transfer'] is not None):
+                    out.append(O.V('C18', 'transfer_slot', f"transfer slots not cleared after the move: hot {self.hot.observations['transfer']} cold {self.cold.observations['transfer']}"))
+            if not mv['proc'].is_alive:
+                if mv['left'] != 0 and not self.dead:
+                    out.append(O.V('C18', 'ended_early', f"{mv['dir']} of {mv['name']} ended with {mv['left']} not transferred"))
+                self.moves.remove(mv)
+                self.count('move_completed')
         self.check_where(out, op)
         self.last = (h, c)
 
     def check_where(self, out, op):
-        if self.move is not None and not self.move.get('data_done'):
-            return
+        flying = {mv['name'] for mv in self.in_flight()}
         hot_n, cold_n = self.names(self.hot), self.names(self.cold)
         for name, tier in self.where.items():
+            if name in flying:
+                continue
             in_hot, in_cold = hot_n.count(name), cold_n.count(name)
             if tier == 'scheduled':
                 if in_hot or in_cold:
@@ -954,6 +1064,16 @@ class TierModel:
                 continue
             if (in_hot, in_cold) != ((1, 0) if tier == 'hot' else (0, 1)):
                 out.append(O.V('C18', 'stored_lists', f"after {op}: {name} should be stored in {tier} only: hot {hot_n} cold {cold_n}"))
+
+    def _stream_in(self, size):
+        left = size
+        while left > 0:      # stream it in at no more than the hot tier's ingest rate
+            chunk = min(left, int(self.hot.max_ingest_data_rate))
+            self.hot.process_incoming_data_stream(chunk, self.env.now)
+            left -= chunk
+        self.data += size
+        if self.moves:
+            self.last = (self.last[0] - size, self.last[1])
 
     def apply(self, op):
         out = []
@@ -965,34 +1085,20 @@ class TierModel:
                 if self.hot.has_capacity_for(size) and self.hot.current_capacity - size >= 0:
                     self.k += 1
                     o = TierObs(f"o{self.k}", size)
-                    left = size
-                    while left > 0:      # stream it in at no more than the hot tier's ingest rate
-                        chunk = min(left, int(self.hot.max_ingest_data_rate))
-                        self.hot.process_incoming_data_stream(chunk, self.env.now)
-                        left -= chunk
+                    self._stream_in(size)
                     self.hot.observations['stored'].append(o)
                     self.where[o.name] = 'hot'
                     self.objs[o.name] = o
-                    self.data += size
                     self.count('stored')
-                    if self.move is not None:
-                        self.last = (self.last[0] - size, self.last[1])
             elif kind == 'deposit':
                 # data of an observation that is still ingesting: on the hot tier, not yet in any list
                 size = op[1]
                 if self.hot.has_capacity_for(size) and self.hot.current_capacity - size >= 0:
-                    left = size
-                    while left > 0:
-                        chunk = min(left, int(self.hot.max_ingest_data_rate))
-                        self.hot.process_incoming_data_stream(chunk, self.env.now)
-                        left -= chunk
-                    self.data += size
+                    self._stream_in(size)
                     self.count('deposited_unlisted')
-                    if self.move is not None:
-                        self.last = (self.last[0] - size, self.last[1])
             elif kind == 'schedule':
                 # the scheduler takes the newest stored observation for processing (it stays on the hot tier)
-                if self.hot.observations['stored'] and not (self.move and self.move['dir'] == 'h2c' and not self.move.get('data_done')):
+                if self.hot.observations['stored'] and not any(mv['dir'] == 'h2c' for mv in self.in_flight()):
                     o = self.hot.next_observation_for_processing()
                     if o is not None:
                         self.where[o.name] = 'scheduled'
@@ -1001,69 +1107,71 @@ class TierModel:
                 sched = list(self.hot.observations['scheduled'])
                 if sched:
                     o = sched[0]
-                    before_free = self.hot.current_capacity
                     ok = self.hot.remove(o)
                     if ok:
                         self.data -= o.total_data_size
                         self.where.pop(o.name, None)
                         self.count('finished')
-                        if self.move is not None:
+                        if self.moves:
                             self.last = (self.last[0] + o.total_data_size, self.last[1])
-            elif kind in ('h2c', 'c2h') and self.move is None:
+            elif kind in ('h2c', 'c2h'):
                 src, dst = (self.hot, self.cold) if kind == 'h2c' else (self.cold, self.hot)
-                if src.observations['stored']:
+                flying = self.in_flight()
+                if src.observations['stored'] and len(flying) < 3:
                     o = src.observations['stored'][-1]
-                    before = (self.hot.current_capacity, self.cold.current_capacity, self.names(self.hot), self.names(self.cold))
-                    room = dst.current_capacity >= o.total_data_size
-                    gen = self.buf.move_hot_to_cold(0) if kind == 'h2c' else self.buf.move_cold_to_hot(0)
-                    proc = self.env.process(gen)
-                    self._settle()
-                    if not proc.is_alive and proc.value is False:
-                        self.count('move_refused')
-                        after = (self.hot.current_capacity, self.cold.current_capacity, self.names(self.hot), self.names(self.cold))
-                        if after != before or self.hot.observations['transfer'] is not None or self.cold.observations['transfer'] is not None:
-                            out.append(O.V('C18', 'refusal_changed_state', f"refused {kind} of {o.name}: {before} -> {after}, transfer slots {self.hot.observations['transfer']}/{self.cold.observations['transfer']}"))
-                        if room:
-                            out.append(O.V('C18', 'refused_with_room', f"{kind} of {o.name} ({o.total_data_size}) refused although the destination has {dst.current_capacity} free"))
+                    size = o.total_data_size
+                    inbound = sum(mv['left'] for mv in flying if (mv['dir'] == kind))      # still to arrive in dst
+                    biggest = max([mv['size'] for mv in flying] or [0])
+                    certainly_room = dst.current_capacity - inbound - biggest >= size
+                    certainly_none = dst.current_capacity < size
+                    if flying and not (certainly_room or certainly_none):
+                        # another move is in flight and whether the newcomer fits depends on how the data still arriving is
+                        # counted: the code documents concurrent transfers as unsupported ("TODO Support multiple observation
+                        # transfers"), so such requests are not issued
+                        self.count('concurrent_request_not_issued_ambiguous_room')
                     else:
-                        if not room:
-                            out.append(O.V('C18', 'accepted_without_room', f"{kind} of {o.name} ({o.total_data_size}) started although the destination has only {before[1] if kind == 'h2c' else before[0]} free"))
-                        self.move = {'dir': kind, 'name': o.name, 'size': o.total_data_size, 'left': o.total_data_size,
-                                     'steps': 0, 'proc': proc}
-                        self.count('move_started_' + kind)
-                        if o.total_data_size % self.rate:
-                            self.count('size_not_multiple_of_rate')
-            elif kind in ('h2c', 'c2h') and not self.move.get('data_done'):
-                # a move is in flight and another one is requested whose destination certainly lacks room (free space <
-                # size): it must be refused and leave everything - including the move in flight, which observe() keeps
-                # judging step by step - as it was.  Requests that might be accepted are not issued: the code documents
-                # concurrent transfers as unsupported ("TODO Support multiple observation transfers").
-                src, dst = (self.hot, self.cold) if kind == 'h2c' else (self.cold, self.hot)
-                if src.observations['stored'] and dst.current_capacity < src.observations['stored'][-1].total_data_size:
-                    o = src.observations['stored'][-1]
-                    def state():
-                        return (self.hot.current_capacity, self.cold.current_capacity, self.names(self.hot), self.names(self.cold),
-                                getattr(self.hot.observations['transfer'], 'name', None),
-                                getattr(self.cold.observations['transfer'], 'name', None))
-                    before = state()
-                    proc = self.env.process(self.buf.move_hot_to_cold(0) if kind == 'h2c' else self.buf.move_cold_to_hot(0))
-                    self._settle()
-                    after = state()
-                    self.count('refused_request_during_move')
-                    if kind != self.move['dir']:
-                        self.count('refused_request_opposite_direction')
-                    if proc.is_alive or proc.value is not False:
-                        out.append(O.V('C18', 'accepted_without_room', f"{kind} of {o.name} ({o.total_data_size}) requested during the {self.move['dir']} of {self.move['name']} started although the destination has only {dst.current_capacity} free"))
-                        self.dead = True
-                    elif after != before:
-                        out.append(O.V('C18', 'refusal_changed_state', f"refused {kind} of {o.name} during the {self.move['dir']} of {self.move['name']}: {before} -> {after}"))
+                        before = self.state()
+                        room = dst.current_capacity >= size
+                        gen = self.buf.move_hot_to_cold(0) if kind == 'h2c' else self.buf.move_cold_to_hot(0)
+                        proc = self.env.process(gen)
+                        self._settle()
+                        if not proc.is_alive and proc.value is False:
+                            self.count('move_refused')
+                            if flying:
+                                self.count('refused_request_during_move')
+                                if any(mv['dir'] != kind for mv in flying):
+                                    self.count('refused_request_opposite_direction')
+                            after = self.state()
+                            if after != before:
+                                out.append(O.V('C18', 'refusal_changed_state', f"refused {kind} of {o.name} ({self.describe()}): {before} -> {after}"))
+                            if not flying and (self.hot.observations['transfer'] is not None or self.cold.observations['transfer'] is not None):
+                                out.append(O.V('C18', 'refusal_changed_state', f"refused {kind} of {o.name}: transfer slots {self.hot.observations['transfer']}/{self.cold.observations['transfer']}"))
+                            if room and not flying:
+                                out.append(O.V('C18', 'refused_with_room', f"{kind} of {o.name} ({size}) refused although the destination has {dst.current_capacity} free"))
+                            if certainly_room and flying:
+                                self.count('concurrent_request_refused_despite_room')
+                        else:
+                            if not room:
+                                out.append(O.V('C18', 'accepted_without_room', f"{kind} of {o.name} ({size}) started although the destination has only {before[1] if kind == 'h2c' else before[0]} free ({self.describe()})"))
+                                self.dead = True
+                            self.moves.append({'dir': kind, 'name': o.name, 'size': size, 'left': size, 'steps': 0, 'proc': proc,
+                                               'data_done': False, 'due': True})
+                            self.count('move_started_' + kind)
+                            if flying:
+                                self.count('concurrent_move_started')
+                                if any(mv['dir'] != kind for mv in flying):
+                                    self.count('concurrent_opposite_directions')
+                            if size % self.rate:
+                                self.count('size_not_multiple_of_rate')
             elif kind == 'step':
                 for _ in range(op[1]):
                     self._settle()
+                    for mv in self.moves:
+                        mv['due'] = True
                     self.env.run(until=self.env.now + 1)
                     self._settle()
                     self.observe(out, op, advanced=True)
-                    if out:
+                    if out or self.dead:
                         break
                 return out
             self.observe(out, op)
@@ -1092,7 +1200,26 @@ def tier_history_strategy():
                 [['store', s1], ['store', s2], ['h2c'], ['step', k], ['h2c'], ['step', 1], ['h2c']] + tail]
     directed = st.tuples(st.integers(2, 30), st.integers(2, 40), st.integers(0, 30), st.integers(1, 12), st.integers(1, 12),
                          st.integers(1, 4), st.lists(op, max_size=8)).map(busy)
-    return st.one_of(free, free, free, directed)
+
+    def overlap(t):
+        # roomy tiers; one observation is taken to cold, another stored in hot, then both moves (opposite directions) - or two
+        # moves in the same direction - are in flight during common steps
+        s1, s2, s3, hr, cr, k, shape, tail = t
+        r = min(hr, cr)
+        cap = 4 * (s1 + s2 + s3) + 10
+        ops = [['store', s1], ['h2c'], ['step', -(-s1 // r) + 1], ['store', s2]]
+        if shape == 0:
+            ops += [['c2h'], ['step', k], ['h2c']]
+        elif shape == 1:
+            ops += [['h2c'], ['step', k], ['c2h']]
+        elif shape == 2:
+            ops += [['h2c'], ['c2h']]
+        else:
+            ops += [['store', s3], ['h2c'], ['step', k], ['h2c']]
+        return [cap, cap, hr, cr, ops + [['step', 2]] + tail]
+    overlapping = st.tuples(st.integers(2, 30), st.integers(2, 30), st.integers(2, 30), st.integers(1, 12), st.integers(1, 12),
+                            st.integers(1, 3), st.integers(0, 3), st.lists(op, max_size=8)).map(overlap)
+    return st.one_of(free, free, free, directed, overlapping)
 
 
 def run_tier_history(case):
@@ -1108,7 +1235,7 @@ def run_tier_history(case):
             out += m.apply(op)
         # let a move in flight finish so that its end state is judged
         guard = 0
-        while m.move is not None and not m.dead and not out and guard < 200:
+        while m.moves and not m.dead and not out and guard < 200:
             out += m.apply(['step', 1])
             guard += 1
     return m, out
@@ -1119,7 +1246,7 @@ class C18:
     cases = {'quick': 4000, 'thorough': 60000}
     technique = "model-based property testing: generated tier-operation histories on a real Buffer + exhaustive grid of single moves and round trips"
     rule = ("histories [store size | deposit unlisted data | schedule | finish | move hot->cold | move cold->hot | step k] on a real Buffer with generated capacities and both rate "
-            "orderings, one move at a time plus requests that must be refused (destination free space < size) issued while a move is in flight, in either direction; thorough additionally enumerates the grid sizes 1..24 x hot rate 1..6 x cold rate 1..6 x "
+            "orderings, mostly one move at a time, plus moves overlapping in time (only requested when the destination has room for everything in flight and the newcomer) and requests that must be refused (destination free space < size) issued while a move is in flight, in either direction; thorough additionally enumerates the grid sizes 1..24 x hot rate 1..6 x cold rate 1..6 x "
             "{hot->cold, round trip} x {room, no room}; non-trivial = history with a started move where hot rate < cold rate or the size is "
             "not a multiple of the rate, or with a refused move; distinct = distinct canonical history JSON")
     level_text = ("exploration (single-move grid exhaustive in thorough): after every step hot free + cold free + stored data is constant and "
